@@ -333,7 +333,67 @@ def r4(ctx):
                   "every step dispatches on the layer at idx = len - i - 1")
         ctx.check("R01.4", short_name + ":result-routing", bool(routing) and all(x[0] for x in routing), "result-components-routed-wrongly:" + short(next((x[1] for x in routing if not x[0]), ""), 80), wloc,
                   "(dX, dW, db) -> gradients / weight / bias lists")
-    ctx.floor("R01.4", 18, "two walks: walk form, idx, input, output, arms, routing")
+    ctx.guard("R01.4", "record-layout", forward_record_layout, ctx, "R01.4")
+    ctx.floor("R01.4", 18 + 3, "two walks: walk form, idx, input, output, arms, routing; record layout of Network::forward")
+
+
+def forward_record_layout(ctx, rule):
+    """The layout the backward walk indexes into, decided on the E6 summary of Network::forward: the activation record starts as
+    [input] and the other records empty; the layers are visited once each, in order, and every visit appends exactly the records of
+    `_forward(x, i, i + 1)` (one layer) to each of them - so preactivated[i] / activated[i + 1] / maxpools[i] belong to layer i and
+    activated[i] is its input."""
+    from .. import e6
+    c = ctx.crate
+    fn = ctx.fn("network::Network::forward")
+    where = c.loc(fn)
+    inp = pat_binds(fn["params"][1])[0][0]
+    E = e6.Exec(c, fn)
+    live = [p for p in E.run_fn() if p.exit is None or p.exit[0] == "return"]
+    ok_seed = ok_walk = ok_step = False
+    why = ""
+    if len(live) == 1 and not live[0].pc:
+        P = live[0]
+        val = P.val if P.exit is None else P.exit[1]
+        comps = val[1] if isinstance(val, tuple) and val and val[0] == "tup" else ()
+        loops = [e for e in P.eff if e[0] == "loop" and E.loop_summaries[e[1]].get("kind") == "for"]
+        others = [e for e in P.eff if e[0] != "loop"]
+        if len(comps) == 4 and all(isinstance(x, tuple) and len(x) == 4 and x[0] == "loopout" for x in comps) and len({x[2] for x in comps}) == 1 and len(loops) == 1 and not others:
+            lid = comps[0][2]
+            empty = lambda t: e6.is_call(t, "new", 0) is not None or e6.is_call(t, "with_capacity", 1) is not None or t == ("vec", ())
+            ok_seed = empty(comps[0][3]) and comps[1][3] == ("vec", (("p", inp),)) and empty(comps[2][3]) and empty(comps[3][3])
+            why = "records start as %s" % [e6.show(x[3], 2) for x in comps]
+            L = E.loop_summaries[lid]
+            rng = e6.range_of(L["iter"])
+            LEN = ("call", "std::vec::Vec::<T, A>::len", (("field", ("p", "self"), "layers"),))
+            ok_walk = rng is not None and rng[0] == ("lit", "0") and e6.lin(rng[1]) == e6.lin(LEN)
+            el = ("elem", L["iter"], lid)
+            names = [x[1] for x in comps]
+            ok_step = True
+            for q in L["paths"]:
+                if q.exit is not None and q.exit[0] == "panic":
+                    continue
+                if q.exit is not None:
+                    ok_step, why = False, "a layer visit leaves the walk early (%s)" % (q.exit[0],)
+                    break
+                for k_, nm in enumerate(names[:3]):
+                    grows = [e for e in q.eff if (e[0] == "mut" and e[1].rsplit("::", 1)[-1] in ("append", "extend", "extend_from_slice", "insert", "remove", "pop", "clear", "truncate") and e[2] == ("local", nm))
+                             or (e[0] == "push" and e[1] == ("local", nm))]
+                    good = False
+                    if len(grows) == 1 and grows[0][0] == "mut" and grows[0][1].rsplit("::", 1)[-1] in ("append", "extend") and len(grows[0][3]) == 1:
+                        a = e6.strip_upd(grows[0][3][0])
+                        if isinstance(a, tuple) and a[0] == "proj" and a[2] == k_:
+                            f_ = e6.is_call(a[1], "_forward", 4)
+                            good = f_ is not None and f_[0] == ("p", "self") and e6.lin(f_[2]) == e6.lin(el) and e6.lin(f_[3]) == e6.lin(e6.mk_bin("Add", el, ("lit", "1")))
+                    if not good:
+                        ok_step, why = False, "a visit changes `%s` by %s" % (nm, [e6.show(e[3][0] if e[0] == "mut" and e[3] else e[2], 3)[:80] for e in grows])
+                        break
+                if not ok_step:
+                    break
+    ctx.check(rule, "Network:record-starts-with-input", ok_seed, "record-seed:" + short(why, 80), where, "activated = vec![input]; the other records empty",
+              "Network::forward: %s; the backward walk reads activated[i] as the input of layer i" % why)
+    ctx.check(rule, "Network:layers-visited-in-order", ok_walk, "forward-walk", where, "for i in 0..self.layers.len()")
+    ctx.check(rule, "Network:one-record-per-layer", ok_step, "record-growth:" + short(why, 80), where, "each visit appends the records of _forward(x, i, i + 1)",
+              "Network::forward: %s; every layer must contribute exactly one entry to each record, in order" % why)
 
 
 def r5(ctx):
@@ -785,6 +845,8 @@ def run(ctx):
     ctx.guard("R01.4", "call-sites", r4, ctx)
     ctx.guard("R01.5", "dense", r5, ctx)
     ctx.guard("R01.6", "maxpool", r6, ctx)
+    from . import c02 as _c02
+    ctx.guard("R01.6", "argmax-recording", _c02.maxpool_forward, ctx, "R01.6")
     ctx.guard("R01.7", "axis-typing", spatial.axis_typing, ctx, "R01.7", BWD_FNS, 41)  # measured 82; the count varies with temporaries, the floor only excludes vacuity
     ctx.guard("R01.8", "prologue", r8, ctx)
     ctx.floor("R01.1", 2, "two accumulations")
